@@ -772,8 +772,12 @@ func (x *fnv) initMutexes(s *State, T types.Type, r *Term) {
 	for i := 0; i < st.NumFields(); i++ {
 		f := st.Field(i)
 		if isMutexType(f.Type()) {
-			m := x.h.region(s, lockRegionName, 1, SBool)
-			s.mem[lockRegionName] = x.c.Store(m, x.muAddr(s, T, f.Name(), r), nil, x.c.False())
+			rn := lockRegionName
+			if typeStr(f.Type()) == "sync.Once" {
+				rn = onceRegionName
+			}
+			m := x.h.region(s, rn, 1, SBool)
+			s.mem[rn] = x.c.Store(m, x.muAddr(s, T, f.Name(), r), nil, x.c.False())
 		}
 	}
 }
